@@ -3,8 +3,8 @@ import json
 from .. import common, framework, fndiff, cmdrun, gen, oracles, strace, crash
 
 
-def one_instance(ctx, r):
-    base, v, trace = crash.build_state(ctx, r, 8 + r.n(10))
+def one_instance(ctx, r, big=0):
+    base, v, trace = crash.build_state(ctx, r, 8 + r.n(10), big=big)
     try:
         label, argv, stdin = crash.multi_event_command(r, v)
         env = {"VERIF_RAND": str(r.next() % (1 << 40))}
@@ -55,7 +55,7 @@ def run(ctx):
     framework.check_facts(ctx, ctx.facts, ["with_lock", "lock_sites", "writer_calls"])
     r = gen.Rng(ctx.seed * 1000003 + 4)
     for i in range(22 if ctx.quick else 300):
-        one_instance(ctx, r.fork())
+        one_instance(ctx, r.fork(), big=(130 if i % 7 == 3 else 0))
     ctx.cov["rule"] = ("for generated CLI-reachable pre-states × multi-event commands (claim, claim <id>, multi-field set, create-with-state/claim, sequence chain, prune --yes, plan, compact): "
                        "SIGKILL injected with strace before every one of the command's system calls on the store's files; observable state (clock readings aside) must equal "
                        "the state before or the state after (twin run with the same scripted RNG); distinct = (command, kill point, events recorded)")
